@@ -1,11 +1,15 @@
 """C01 - formula operators keep their Excel meaning (DESIGN 5 C01)."""
 import ast
 
-from pv import propkit as K, schema, source
+from pv import propkit as K, schema, source, native
 from pv.core import PropResult, Ob
 
 LEVEL = 'other'
-EXPLANATION = ('Proved: the operator table (each Excel operator is emitted as the Python operator / helper of the same '
+EXPLANATION = ('K1: ExpressionTokenTranslator._group (the regrouping of the right-nested operand chain; three nested loops, a '
+               'dictionary of waiting levels) returns, for every chain, the precedence tree of the chain - every operand and '
+               'operator kept in order, at every operation the left root not weaker and the right root strictly stronger than the '
+               'operation (so one level groups from the left, * / bind tighter than + - than & than comparisons) - given the seven '
+               'shapes of an ExpressionToken and the level table of the eleven operators (K2, exhaustive). Proved further: the operator table (each Excel operator is emitted as the Python operator / helper of the same '
                'meaning, K-S on the real translators), in-order emission with re-emitted brackets for the arithmetic '
                'fragment + - * / ( ), CPython groups a x b y c as the statement\'s table does for all 16 pairs (K2), a blank '
                'cell is the int 0 in arithmetic (K3 on the extracted EmptyCell), x% is x/100 normalised. The full operator '
@@ -72,8 +76,39 @@ def _emptycell(res):
             'arithmetic operator as 0')
 
 
+def _group_facts(res):
+    """K2: the facts the K1 contract of _group assumes about the real grammar data and about _level (finite, exhaustive)"""
+    try:
+        g = native.call('c01k2', 'facts')
+    except Exception as e:  # noqa
+        o = Ob('C01.Level.table', 'K2', decisive=False, function='ExpressionTokenTranslator._level')
+        o.status, o.detail = 'notformed', f'native facts not available: {e!r}'
+        res.add(o)
+        return
+    o = Ob('C01.Level.table', 'K2', decisive=False, function='ExpressionTokenTranslator._level')
+    lv = g['level']
+    o.count = lv['n']
+    o.status = 'discharged' if not lv['bad'] and lv['exactly_the_eleven'] else 'failed'
+    o.detail = (f'_level on an instance of each of the {lv["n"]} operator token classes: comparisons 0, & 1, + - 2, * / 3 (weakest to '
+                f'strongest, as the statement orders them); _LEVELS lists exactly these classes' if o.status == 'discharged' else
+                f'_level disagrees with the statement\'s table: {lv["bad"]}; _LEVELS = {lv["levels"]}')
+    res.add(o)
+    o = Ob('C01.Grammar.expression_token_sets', 'K2', decisive=False, function='tokens: ExpressionToken, OperatorToken')
+    es, oc = g['expression_sets'], g['operator_carriers']
+    o.count = len(es['got']) + len(oc['carried'])
+    o.status = 'discharged' if es['ok'] and oc['ok'] else 'failed'
+    o.detail = ('ExpressionToken has exactly the seven shapes the chain model of _group assumes (operand / percentage / bracketed '
+                'expression, optionally followed by an operator and an expression; a sign followed by an expression), and an '
+                'OperatorToken carries one of the eleven operator tokens that have a level' if o.status == 'discharged' else
+                f'token sets differ from the chain model: {es["got"]}; operator carriers: {oc["carried"]}')
+    res.add(o)
+
+
 def run(ctx):
     res = PropResult('C01')
+    K.k1_block(res, ctx, 'contracts.c01', ['ExpressionTokenTranslator._group'], 'C01.')
+    _group_facts(res)
+    K.canary_contract(res, 'contracts.c01', 'ExpressionTokenTranslator._group', 'precedence_tree', 'c01_wf(result) and c01_rl(result) == 4')
     schema.run_table(res, 'C01', TABLE)
     _cpython_table(res)
     _emptycell(res)
